@@ -60,7 +60,9 @@ def join_make(rng, sid, hist):
                 it["value"] = None if it["lines"][0].endswith(delim[:1]) else b""
             items.append(it)
     content = gen_doc.render(items)
-    opt = b"JOIN_SAME_ENTRIES=1"
+    # the flag alone, or next to other documented items in either order (the object then carries its own drop-in postfixes)
+    opt = rng.choice([b"JOIN_SAME_ENTRIES=1", b"JOIN_SAME_ENTRIES=1", b"CONFIG_DIRS=.d;JOIN_SAME_ENTRIES=1", b"JOIN_SAME_ENTRIES=1;CONFIG_DIRS=conf.d:.d",
+                      b"JOIN_SAME_ENTRIES=1;PARSING_DIRS=/usr/etc/app:/etc/app"])
     s = docs.doc_scenario(sid, content, delim, comment, {"mode": "join", "items": items, "content": content, "delim": delim, "comment": comment},
                           PATH, opt=opt)
     return s
@@ -126,7 +128,7 @@ def python_make(rng, sid, hist):
             items.append(it)
     content = gen_doc.render(items)
     s = docs.doc_scenario(sid, content, delim, comment, {"mode": "python", "items": items, "content": content, "delim": delim, "comment": comment},
-                          PATH, opt=b"PYTHON_STYLE=1")
+                          PATH, opt=rng.choice([b"PYTHON_STYLE=1", b"PYTHON_STYLE=1", b"CONFIG_DIRS=.d;PYTHON_STYLE=1", b"PYTHON_STYLE=1;CONFIG_DIRS=.d"]))
     return s
 
 
